@@ -300,7 +300,7 @@ class PosInterp:
                         groups.append((k, [x]))
                 return groups
             if n == 'len':
-                if isinstance(args[0], (list, tuple, range, dict)):
+                if isinstance(args[0], (list, tuple, range, dict, str)):
                     return len(args[0])
                 if isinstance(args[0], StrSym):
                     return args[0].length()
@@ -621,6 +621,8 @@ class PosInterp:
     def truth(self, v: Any, node: ast.AST) -> bool:
         if isinstance(v, bool):
             return v
+        if isinstance(v, StrSym):
+            return True               # an abstract text stands for a non-empty one (its length is a positive symbol)
         if v is None:
             return False
         if isinstance(v, (int, Lin)):
